@@ -1268,6 +1268,38 @@ func c01Dispatch(w *World, r *Report) {
 				}
 				which := ""
 				var a0, a1 ssa.Value
+				// one call through a variable that was set to one of the comparators: one selection per way in
+				if phi, isPhi := c.Call.Value.(*ssa.Phi); isPhi && len(c.Call.Args) == 2 {
+					all := true
+					for i, e := range phi.Edges {
+						kind := ""
+						switch e {
+						case ssa.Value(f.Params[1]):
+							kind = "bool"
+						case ssa.Value(f.Params[2]):
+							kind = "lit"
+						case ssa.Value(f.Params[3]):
+							kind = "num"
+						}
+						if kind == "" {
+							all = false
+							continue
+						}
+						pred := phi.Block().Preds[i]
+						cond := pcAndF(pcAndF(sym.PathCond(f.Blocks[0], pred, nil), sym.edgeCond(pred, phi.Block(), nil)), sym.PathCond(phi.Block(), b, nil))
+						seen[kind] = true
+						if condOf[kind] == nil {
+							condOf[kind] = pcZ
+						}
+						condOf[kind] = pcOrF(condOf[kind], cond)
+					}
+					if all {
+						if c.Call.Args[0] != left || c.Call.Args[1] != right {
+							args = "the comparison receives its operands in the wrong order"
+						}
+						continue
+					}
+				}
 				switch {
 				case c.Call.StaticCallee() != nil && c.Call.StaticCallee().Object() == types.Object(cns):
 					which = "nodeset"
